@@ -327,6 +327,8 @@ pub struct ChainSnapshot {
     pub last_block_id: u64,
     pub last_block_hash: SaitoHash,
     pub genesis_block_id: u64,
+    /// (last_timestamp, last_burnfee): the rest of the tip bookkeeping of Blockchain
+    pub last_ts_burnfee: (u64, u64),
 }
 
 impl Node {
@@ -405,6 +407,7 @@ impl Node {
             last_block_id: bc.last_block_id,
             last_block_hash: bc.last_block_hash,
             genesis_block_id: bc.genesis_block_id,
+            last_ts_burnfee: (bc.last_timestamp, bc.last_burnfee),
         }
     }
 }
